@@ -133,8 +133,10 @@ class Scores:
         """
         self.pos = np.asarray(pos)
         self.neg = np.asarray(neg)
-        self.nb_easy_pos = nb_easy_pos
-        self.nb_easy_neg = nb_easy_neg
+        # Counts computed with NumPy arrive as NumPy integers. Adding the number of scores
+        # to a narrow or unsigned one wraps around, so we keep plain Python integers.
+        self.nb_easy_pos = int(nb_easy_pos)
+        self.nb_easy_neg = int(nb_easy_neg)
         self.score_class = BinaryLabel(score_class)
         self.equal_class = BinaryLabel(equal_class)
 
